@@ -11,7 +11,7 @@ import traceback
 from . import report
 from .model import AnalysisError, ConstEval, Repo, Unknown
 
-CLAIMED = ["C%02d" % i for i in range(1, 21) if i != 19]
+CLAIMED = ["C%02d" % i for i in range(1, 21)]
 
 
 def evaluate(prop: str, tier: str, root=None):
